@@ -204,8 +204,8 @@ theorem executed_in_order (c : SCfg) (evs : List Ev) (t : TState) (hq : t.queued
 theorem select_maps_db (c : PCfg) (s : PState) (a : Bytes) (n : Int) (off : Int)
     (ha : atoi? a = some n) (hn : 0 ≤ n) (hdb : c.filterDb n = false)
     (hk : (c.filterCmdKey bSelect [a]).isSome) :
-    (parseStep c s { cmd := bSelect, args := [a], off := off }).1 =
-        { currentDB := mapDb c n, bypass := false } ∧
+    (parseStep c s { cmd := bSelect, args := [a], off := off }).1.currentDB = mapDb c n ∧
+    (parseStep c s { cmd := bSelect, args := [a], off := off }).1.bypass = false ∧
     (parseStep c s { cmd := bSelect, args := [a], off := off }).2 =
         (if mapDb c n ≠ s.currentDB then POut.emit (selectItem (mapDb c n) off) else POut.skip) :=
   parseStep_select c s a n off ha hn hdb hk
@@ -220,33 +220,73 @@ theorem select_filtered_db_bypasses (c : PCfg) (s : PState) (a : Bytes) (n : Int
       ({ s with bypass := true }, POut.skip) :=
   parseStep_select_filtered c s a n off ha hdb
 
-/-- an ordinary command is forwarded iff not bypassed, not blacklisted, not the
-    sentinel hello and its keys pass; forwarded = same name, exactly the
-    filtered arguments, its END offset, the parser's current database -/
+/-- an ordinary command is forwarded iff not blacklisted, not the sentinel
+    hello, its keys pass, and it is not inside a filtered database -- except the
+    `EXEC` that closes a transaction opened in an UNFILTERED database (`closesTxn`),
+    which is handed over so that the sender leaves its transaction, carrying the
+    offset of the last forwarded item (so that a checkpoint never moves into the
+    filtered region). Forwarded = same name, exactly the filtered arguments, its
+    END offset, the parser's current database. -/
 theorem data_command_forwarded_iff (c : PCfg) (s : PState) (r : Raw)
     (hp : r.cmd ≠ bPing) (hs : r.cmd ≠ bSelect) :
     parseStep c s r =
-      (s, if c.filterCmd r.cmd then POut.skip
-          else if r.cmd = bPublish ∧ (r.args.head?.map lower) = some bSentinelHello then POut.skip
-          else if s.bypass ∧ r.cmd ≠ bMulti ∧ r.cmd ≠ bExec then POut.skip
-          else match c.filterCmdKey r.cmd r.args with
-            | none => POut.skip
-            | some a => POut.emit { cmd := r.cmd, args := a, offset := r.off, db := s.currentDB }) :=
+      if c.filterCmd r.cmd then (s, POut.skip)
+      else if r.cmd = bPublish ∧ (r.args.head?.map lower) = some bSentinelHello then (s, POut.skip)
+      else if s.bypass ∧ closesTxn s r.cmd = false then (s, POut.skip)
+      else match c.filterCmdKey r.cmd r.args with
+        | none => (s, POut.skip)
+        | some a =>
+          (sent s r.cmd (if closesTxn s r.cmd then s.lastSent else r.off),
+           POut.emit { cmd := r.cmd, args := a,
+                       offset := (if closesTxn s r.cmd then s.lastSent else r.off), db := s.currentDB }) :=
   parseStep_data c s r hp hs
 
-/-- the parser never reorders, duplicates or invents: emitted offsets are a
-    subsequence of the source commands' offsets -/
-theorem parser_keeps_order (c : PCfg) (s : PState) (raws : List Raw) :
-    List.Sublist ((parseAll c s raws).map (·.offset)) (raws.map (·.off)) :=
-  parseAll_offsets_sublist c s raws
+/-- `closesTxn` holds only for an `EXEC`, only inside a filtered database, only
+    while a forwarded `MULTI` is still open -/
+theorem closesTxn_iff (s : PState) (cmd : Bytes) :
+    closesTxn s cmd = true ↔ s.bypass = true ∧ cmd = bExec ∧ s.txnOpen = true := by
+  simp [closesTxn, and_assoc]
+
+/-- inside a filtered database nothing but that closing `EXEC` is handed over -/
+theorem bypass_forwards_only_closing_exec (c : PCfg) (s : PState) (r : Raw) (i : Item)
+    (hb : s.bypass = true) (hs : r.cmd ≠ bSelect)
+    (h : (parseStep c s r).2 = POut.emit i) :
+    i.cmd = bExec ∧ s.txnOpen = true ∧ i.offset = s.lastSent := by
+  by_cases hp : r.cmd = bPing
+  · exfalso
+    unfold parseStep at h
+    simp only [hp, ↓reduceIte, hb] at h
+    cases hf : c.filterCmdKey bPing r.args <;> simp [hf] at h
+  · rw [parseStep_data c s r hp hs] at h
+    by_cases hct : closesTxn s r.cmd = true
+    · have h3 := (closesTxn_iff s r.cmd).1 hct
+      simp only [hct, hb, Bool.true_eq_false, and_false, ↓reduceIte] at h
+      split at h
+      · simp at h
+      · split at h
+        · simp at h
+        · cases hf : c.filterCmdKey r.cmd r.args with
+          | none => simp [hf] at h
+          | some a =>
+            simp only [hf, POut.emit.injEq] at h
+            subst h
+            exact ⟨h3.2.1, h3.2.2, rfl⟩
+    · have hcf : closesTxn s r.cmd = false := by simpa using hct
+      simp only [hcf, hb, and_self, ↓reduceIte] at h
+      split at h
+      · simp at h
+      · split at h <;> simp at h
+
+/-- the parser never reorders or runs ahead: the offsets it emits never
+    decrease and never exceed what it has consumed; each is the END offset of
+    the source command, or (closing `EXEC` only) of the last item before it -/
+theorem parser_keeps_order (c : PCfg) (raws : List Raw) (s : PState)
+    (hraw : (raws.map (·.off)).Pairwise (· < ·)) (hlo : ∀ r ∈ raws, s.lastSent ≤ r.off) :
+    ((parseAll c s raws).map (·.offset)).Pairwise (· ≤ ·) ∧
+    ∀ i ∈ parseAll c s raws, s.lastSent ≤ i.offset :=
+  parseAll_offsets_mono c raws s hraw hlo
 
 /-! ### End to end: refinement to the one-pass specification `specStream` -/
-
-/-- the items of a schedule, in order -/
-def itemsOf : List Ev → List Item
-  | [] => []
-  | .item it :: rest => it :: itemsOf rest
-  | _ :: rest => itemsOf rest
 
 theorem plainItems_eq_itemCmds (evs : List Ev) : plainItems evs = itemCmds (itemsOf evs) := by
   induction evs with
@@ -285,7 +325,7 @@ theorem fwd_append_done (t : Txn) (evs : List Ev) (hnd : NoDone evs) :
     designated by the latest database switch after mapping. -/
 theorem end_to_end_ticker (pc : PCfg) (sc : SCfg) (hsc : sc.txnMode = false)
     (raws : List Raw) (evs : List Ev)
-    (hitems : itemsOf evs = parseAll pc {} raws)
+    (start : Int) (hitems : itemsOf evs = parseAll pc { lastSent := start } raws)
     (hnd : NoDone evs) (hnn : NoNested (inT .no) evs)
     (hsel : ∀ r ∈ raws, r.cmd = bSelect → ∀ a n, r.args = [a] → atoi? a = some n → 0 ≤ n)
     (hmap : ∀ n : Int, 0 ≤ n → mapDb pc n ≠ -1)
@@ -295,14 +335,14 @@ theorem end_to_end_ticker (pc : PCfg) (sc : SCfg) (hsc : sc.txnMode = false)
   have h1 := (executed_in_order sc (evs ++ [.done]) t hq).2
   rw [h1, done_flushes_all sc hsc evs hnd, fwd_append_done _ _ hnd,
     fwd_eq_plainItems .no evs hnd hnn, plainItems_eq_itemCmds, hitems,
-    parser_refines_spec pc raws {} t.cur (Or.inr rfl) hsel hmap]
+    parser_refines_spec pc raws { lastSent := start } t.cur (Or.inr rfl) hsel hmap]
 
 /-- **End to end, any mode, any moment.** In every mode and after every
     schedule (not necessarily finished) what the target has executed is a PREFIX
     of the specification: nothing beyond it, nothing out of order, every command
     in its designated DB; the rest is still queued or not yet received. -/
 theorem executed_prefix_of_spec (pc : PCfg) (sc : SCfg) (raws : List Raw) (evs : List Ev)
-    (hitems : itemsOf evs = parseAll pc {} raws)
+    (start : Int) (hitems : itemsOf evs = parseAll pc { lastSent := start } raws)
     (hnd : NoDone evs) (hnn : NoNested (inT .no) evs)
     (hsel : ∀ r ∈ raws, r.cmd = bSelect → ∀ a n, r.args = [a] → atoi? a = some n → 0 ≤ n)
     (hmap : ∀ n : Int, 0 ≤ n → mapDb pc n ≠ -1)
@@ -311,7 +351,7 @@ theorem executed_prefix_of_spec (pc : PCfg) (sc : SCfg) (raws : List Raw) (evs :
       (applyLog t (run sc initS evs).2.flatten).applied ++ rest := by
   have h1 := (executed_in_order sc evs t hq).2
   obtain ⟨pend, hp⟩ := wire_prefix sc evs
-  rw [h1, ← parser_refines_spec pc raws {} t.cur (Or.inr rfl) hsel hmap, ← hitems,
+  rw [h1, ← parser_refines_spec pc raws { lastSent := start } t.cur (Or.inr rfl) hsel hmap, ← hitems,
     ← plainItems_eq_itemCmds, ← fwd_eq_plainItems .no evs hnd hnn, ← hp, seqApplied_append]
   exact ⟨(seqApplied (seqApplied t.cur (dataOut (run sc initS evs).2)).1 pend).2,
     by simp [List.append_assoc]⟩
